@@ -77,8 +77,11 @@ func (c *Cache) Del(key string) {
 	c.lock.Lock()
 	delete(c.data, key)
 	c.lruCache.remove(key)
-	c.lock.Unlock()
+	// 计时器要和数据在同一个临界区里增删：放到解锁之后的话，与本次删除交错的 Set
+	//（数据已删，于是新建计时器）建好的计时器会被这里误删，那个条目就永不过期。
+	// 时间轮在自己的协程里处理这些请求、在另外的协程里执行到期回调，不会反过来等这把锁。
 	c.timingWheel.RemoveTimer(key)
+	c.lock.Unlock()
 }
 
 // Get 获取给定键的缓存。
@@ -100,18 +103,19 @@ func (c *Cache) Set(key string, value any) {
 
 // SetWithExpire 设置给定存活时长的键值对至缓存。
 func (c *Cache) SetWithExpire(key string, value any, expire time.Duration) {
+	expiry := c.unstableExpiry.AroundDuration(expire)
+
 	c.lock.Lock()
 	_, ok := c.data[key]
 	c.data[key] = value
 	c.lruCache.add(key)
-	c.lock.Unlock()
-
-	expiry := c.unstableExpiry.AroundDuration(expire)
+	// 同 Del：计时器与数据在同一个临界区里更新
 	if ok {
 		c.timingWheel.MoveTimer(key, expiry)
 	} else {
 		c.timingWheel.SetTimer(key, value, expiry)
 	}
+	c.lock.Unlock()
 }
 
 // Take 返回给定键的条目。
